@@ -277,6 +277,7 @@ fn oracle(c: &C31Case, h: &Hist, res: &mut CaseResult) {
     // ---- blocked writes
     let mbt = c.mbt_ms as u64 * MS;
     let mut blocked = false;
+    let mut abandoned = false;
     for w in &h.writes {
         let dur = w.end_ns - w.start_ns;
         if dur > 0 {
@@ -287,10 +288,20 @@ fn oracle(c: &C31Case, h: &Hist, res: &mut CaseResult) {
         let asleep = h.delays.iter().any(|d| d.1 > POKE_NS && d.0 <= w.start_ns + mbt + POKE_NS && d.0.saturating_add(d.1) > w.start_ns + mbt + POKE_NS);
         if asleep && dur > mbt + POKE_NS + EPS_NS {
             res.class("write_late_because_worker_overslept");
+            abandoned |= w.result == "never";
+            continue;
+        }
+        if abandoned && w.result.contains("Another writer already waiting") {
+            // the harness gave up on an earlier write that the sleeping worker never timed out; that write is
+            // still pending inside dust-dds and makes this one fail - part of the oversleep finding
+            res.class("write_refused_behind_abandoned_write");
             continue;
         }
         match w.result.as_str() {
-            "never" => fails.push(("C31:blocked-write:never-returned".into(), what("had not returned 5 s after max_blocking_time"))),
+            "never" => {
+                abandoned = true;
+                fails.push(("C31:blocked-write:never-returned".into(), what("had not returned 5 s after max_blocking_time")))
+            }
             "timeout" => {
                 if dur < mbt {
                     fails.push(("C31:blocked-write:timeout-too-early".into(), what(&format!("returned Timeout after only {} ms", dur / MS))));
